@@ -271,6 +271,145 @@ theorem decode8_throw_sound (w : Nat) (hw : w = 16 ∨ w = 32) (mark : Option (L
         simp [enc, enc16, this]
       · simp [enc, enc32]
 
+theorem handleError_throw (out : List Nat) (mark : Option (List Nat)) : handleError out .throwError mark = none := rfl
+
+theorem encode8_throw_sound (wi : Nat) (hwi : wi = 16 ∨ wi = 32) (mark : Option (List Nat)) (inp : List Nat)
+    (hin : ∀ u ∈ inp, u < 2 ^ wi) (pos : Nat) (out : List Nat) (inv : Nat) :
+    (encode8 wi .throwError mark inp pos out inv).code = .success →
+    ∃ t, C11.AllScalar t ∧ inp = encs wi t ∧ (encode8 wi .throwError mark inp pos out inv).out = out ++ encs 8 t := by
+  fun_induction encode8 wi .throwError mark inp pos out inv
+  case case1 => intro _; exact ⟨[], by simp [C11.AllScalar], by simp, by simp⟩
+  case case2 b rest _ _ _ hb ih =>
+    intro hs
+    obtain ⟨t, h1, h2, h3⟩ := ih (fun u hu => hin u (by simp [hu])) hs
+    have hb16 : b < 65536 := by omega
+    refine ⟨b :: t, ?_, ?_, ?_⟩
+    · intro x hx; simp at hx; rcases hx with rfl | hx
+      · exact ⟨by omega, by omega⟩
+      · exact h1 x hx
+    · rcases hwi with h | h <;> subst h <;> simp [enc, enc16, enc32, hb16, h2]
+    · rw [h3]; simp [enc, enc8, hb]
+  case case3 => intro h; simp at h
+  case case4 hE _ => simp [handleError] at hE
+  case case5 => intro h; simp at h
+  case case6 =>
+    rename_i b _ _ _ _ hs hb low rest' hl ih
+    intro hsucc
+    obtain ⟨t, h1, h2, h3⟩ := ih (fun u hu => hin u (by simp [hu])) hsucc
+    have hs2 := hs.2; simp [isSurrogate] at hs2
+    have hwi16 := hs.1
+    subst hwi16
+    refine ⟨(65536 + b % 1024 * 1024 + low % 1024) :: t, ?_, ?_, ?_⟩
+    · intro x hx; simp at hx; rcases hx with rfl | hx
+      · exact ⟨by omega, by omega⟩
+      · exact h1 x hx
+    · have hc : ¬ (65536 + b % 1024 * 1024 + low % 1024 < 65536) := by omega
+      simp only [encs_cons, enc, enc16, hc, if_false, h2]
+      simp
+      constructor <;> omega
+    · rw [h3, emit8_eq_enc8 _ (by omega) (by omega)]; simp [enc]
+  case case7 => intro h; simp at h
+  case case8 hE _ => simp [handleError] at hE
+  case case9 => intro h; simp at h
+  case case10 hE _ => simp [handleError] at hE
+  case case11 b rest _ _ _ hb h16 h32 ih =>
+    intro hsucc
+    obtain ⟨t, h1, h2, h3⟩ := ih (fun u hu => hin u (by simp [hu])) hsucc
+    have hb2 := hin b (by simp)
+    have hsc : IsScalar b := by
+      rcases hwi with h | h <;> subst h <;> simp [isSurrogate] at h16 h32 <;> refine ⟨by omega, by omega⟩
+    refine ⟨b :: t, ?_, ?_, ?_⟩
+    · intro x hx; simp at hx; rcases hx with rfl | hx
+      · exact hsc
+      · exact h1 x hx
+    · rcases hwi with h | h <;> subst h
+      · have : b < 65536 := by omega
+        simp [enc, enc16, this, h2]
+      · simp [enc, enc32, h2]
+    · rw [h3, emit8_eq_enc8 _ (by omega) hsc.1]; simp [enc]
+
+theorem decode16to32_throw_sound (mark : Option (List Nat)) (inp : List Nat) (hin : ∀ u ∈ inp, u < 2 ^ 16)
+    (pos : Nat) (out : List Nat) (inv : Nat) :
+    (decode16to32 .throwError mark inp pos out inv).code = .success →
+    ∃ t, C11.AllScalar t ∧ inp = encs 16 t ∧ (decode16to32 .throwError mark inp pos out inv).out = out ++ encs 32 t := by
+  fun_induction decode16to32 .throwError mark inp pos out inv
+  case case1 => intro _; exact ⟨[], by simp [C11.AllScalar], by simp, by simp⟩
+  case case2 => intro h; simp at h
+  case case3 hE _ => simp [handleError] at hE
+  case case4 => intro h; simp at h
+  case case5 =>
+    rename_i b _ _ _ hs hb low rest' hl ih
+    intro hsucc
+    obtain ⟨t, h1, h2, h3⟩ := ih (fun u hu => hin u (by simp [hu])) hsucc
+    simp [isSurrogate] at hs
+    refine ⟨(65536 + b % 1024 * 1024 + low % 1024) :: t, ?_, ?_, ?_⟩
+    · intro x hx; simp at hx; rcases hx with rfl | hx
+      · exact ⟨by omega, by omega⟩
+      · exact h1 x hx
+    · have hc : ¬ (65536 + b % 1024 * 1024 + low % 1024 < 65536) := by omega
+      simp only [encs_cons, enc, enc16, hc, if_false, h2]
+      simp
+      constructor <;> omega
+    · rw [h3]; simp [enc, enc32]
+  case case6 => intro h; simp at h
+  case case7 hE _ => simp [handleError] at hE
+  case case8 b rest _ _ _ hs ih =>
+    intro hsucc
+    obtain ⟨t, h1, h2, h3⟩ := ih (fun u hu => hin u (by simp [hu])) hsucc
+    have hb2 := hin b (by simp)
+    simp [isSurrogate] at hs
+    refine ⟨b :: t, ?_, ?_, ?_⟩
+    · intro x hx; simp at hx; rcases hx with rfl | hx
+      · exact ⟨by omega, by omega⟩
+      · exact h1 x hx
+    · have : b < 65536 := by omega
+      simp [enc, enc16, this, h2]
+    · rw [h3]; simp [enc, enc32]
+
+theorem encode16from32_throw_sound (mark : Option (List Nat)) (inp : List Nat) (pos : Nat) (out : List Nat) (inv : Nat) :
+    (encode16from32 .throwError mark inp pos out inv).code = .success →
+    ∃ t, C11.AllScalar t ∧ inp = encs 32 t ∧ (encode16from32 .throwError mark inp pos out inv).out = out ++ encs 16 t := by
+  fun_induction encode16from32 .throwError mark inp pos out inv
+  case case1 => intro _; exact ⟨[], by simp [C11.AllScalar], by simp, by simp⟩
+  case case2 => intro h; simp at h
+  case case3 hE _ => simp [handleError] at hE
+  case case4 b _ _ _ _ hs hb ih =>
+    intro hsucc
+    obtain ⟨t, h1, h2, h3⟩ := ih hsucc
+    simp [isSurrogate] at hs
+    refine ⟨b :: t, ?_, by simp [enc, enc32, h2], by rw [h3]; simp [enc, enc16, hb]⟩
+    intro x hx; simp at hx; rcases hx with rfl | hx
+    · exact ⟨by omega, by omega⟩
+    · exact h1 x hx
+  case case5 b _ _ _ _ hs hb ih =>
+    intro hsucc
+    obtain ⟨t, h1, h2, h3⟩ := ih hsucc
+    simp [isSurrogate] at hs
+    refine ⟨b :: t, ?_, by simp [enc, enc32, h2], ?_⟩
+    · intro x hx; simp at hx; rcases hx with rfl | hx
+      · exact ⟨by omega, by omega⟩
+      · exact h1 x hx
+    · rw [h3, lor_D800 _ (by omega)]; simp [enc, enc16, hb]
+
+/-- **C12 (never propagated), every pair of different widths.** If `Transcode` reports Success under the
+    ThrowError policy then its input WAS the standard encoding of a list of Unicode scalar values — no
+    overlong form, no surrogate, nothing above U+10FFFF, no cropped sequence — and what it appended is exactly
+    that text in the target encoding form. -/
+theorem transcode_throw_sound (wi wo : Nat) (hwi : C11.Width wi) (hwo : C11.Width wo) (hne : wi ≠ wo)
+    (mark : Option (List Nat)) (inp : List Nat) (hin : ∀ u ∈ inp, u < 2 ^ wi) (out : List Nat)
+    (hs : (transcode wi wo .throwError mark inp out).code = .success) :
+    ∃ t, C11.AllScalar t ∧ inp = encs wi t ∧ (transcode wi wo .throwError mark inp out).out = out ++ encs wo t := by
+  unfold transcode utf8Encode utf16Encode utf32Encode utf16Decode at hs ⊢
+  rcases hwi with h | h | h <;> rcases hwo with h' | h' | h' <;> subst h <;> subst h' <;>
+    first
+    | exact absurd rfl hne
+    | (simp at hs ⊢; first
+        | exact encode8_throw_sound _ (by simp) mark inp hin 0 out 0 hs
+        | exact decode8_throw_sound _ (by simp) mark inp 0 out 0 hs
+        | exact decode16to32_throw_sound mark inp hin 0 out 0 hs
+        | exact encode16from32_throw_sound mark inp 0 out 0 hs)
+
+
 /-! #### non-vacuity: concrete ill-formed inputs reach the interesting branches -/
 
 example : (transcode 8 16 .skip (some [0x2610]) [0xC0, 0x80, 0x41] [7]).out = [7, 0x2610, 0x41] := by
